@@ -191,7 +191,7 @@ fn is_xml_char(ch: char) -> bool {
         '\u{9}' | '\u{A}' | '\u{D}' | '\u{20}'..='\u{D7FF}' | '\u{E000}'..='\u{FFFD}' | '\u{10000}'..='\u{10FFFF}')
 }
 
-fn escape_html_text(s: &str) -> String {
+pub(crate) fn escape_html_text(s: &str) -> String {
     s.chars().map(replace_html_char).collect()
 }
 
